@@ -1,7 +1,10 @@
 (* Proofs of the concurrency properties C14 / C04 / C03 over PipeConc, from the invariant of PipeInv.v.
-   Dependency order: PipeLemmas.v, PipeInv.v, PipeTerm.v, PipeProofs.v. *)
+   Dependency order: PipeLemmas.v, PipeInv.v, PipeTerm.v, PipeProofs.v.
+   Schedules may contain spurious wake-ups (thread ids above T, PipeConc.spurious) at any point; [reachable]
+   and every [sched] below range over those schedules too.  [enabled] is about the real threads only, so
+   deadlock freedom says that a REAL thread can run. *)
 From Wencry Require Import Bytes FileModel PipeConc PipeProps PipeLemmas PipeInv.
-From Wencry Require Export PipeTerm.   (* C04_bounded_steps_proof *)
+From Wencry Require Export PipeTerm.   (* C04_bounded_steps_proof, C04_bounded_steps_without_spurious_proof *)
 From Coq Require Import ZifyNat.
 Local Open Scope nat_scope.
 
@@ -82,7 +85,13 @@ Proof.
   intros T sigma0 ls s tid s' evs i HT Hsig Hwf Hreach Hi Hstep Hne.
   destruct (reach_inv T sigma0 ls s HT Hsig Hwf Hreach) as (dS & q & r & Hinv).
   destruct Hinv as (Lb & Lw & Lx & Hr & Ht & Hio & Hbuf).
-  unfold step in Hstep. destruct tid as [|j].
+  unfold step in Hstep. destruct (tid <=? nT S s).
+  2:{ (* a spurious wake-up changes no buffer *)
+    exfalso. apply Hne. unfold spurious in Hstep. destruct (tid - nT S s - 1) as [|j].
+    - destruct (io S s); try discriminate. injection Hstep as <- _. reflexivity.
+    - destruct (j <? nT S s); [|discriminate]. destruct (getw s j); try discriminate.
+      injection Hstep as <- _. reflexivity. }
+  unfold step_real in Hstep. destruct tid as [|j].
   - right. destruct (step_io_bst s s' evs i ltac:(lia) Hstep Hne) as (Ei & x & Eio & Est).
     split; [reflexivity|]. split; [symmetry; exact Ei|]. split.
     + specialize (Hbuf i Hi). apply (BufInv_own_st _ _ _ _ _ _ _ _ _ _ _ _ _ _ Hbuf).
@@ -166,7 +175,7 @@ Lemma worker_enabled s i : i < length (bufs S s) -> i < length (wsts S s) ->
   match getw s i with W_Asleep _ | W_Done => False | _ => True end ->
   enabled S tr tr_event c ispadding s (Datatypes.S i) = true.
 Proof.
-  intros Hb Hx H. unfold enabled, step. assert (E : (i <? nT S s) = true) by (apply Nat.ltb_lt; exact Hb).
+  intros Hb Hx H. unfold enabled, step_real. assert (E : (i <? nT S s) = true) by (apply Nat.ltb_lt; exact Hb).
   rewrite E. destruct (step_worker_some s i Hx H) as [res ->]. reflexivity.
 Qed.
 
@@ -188,7 +197,7 @@ Proof.
   pose proof Hinv as (Lb & Lw & Lx & Hr & Ht & Hio & Hbuf).
   assert (Hio0 : match io S s with I_Asleep | I_Done | I_Join _ => False | _ => True end ->
                  exists tid, enabled S tr tr_event c ispadding s tid = true).
-  { intros H. exists 0. unfold enabled, step. destruct (step_io_some s H) as [res ->]. reflexivity. }
+  { intros H. exists 0. unfold enabled, step_real. destruct (step_io_some s H) as [res ->]. reflexivity. }
   (* a worker that is neither asleep nor done can run *)
   assert (Hw : forall k, k < T -> match getw s k with W_Asleep _ | W_Done => False | _ => True end ->
                exists tid, enabled S tr tr_event c ispadding s tid = true).
@@ -214,7 +223,7 @@ Proof.
     unfold IoInv in Hio. rewrite Eio in Hio. destruct Hio as (_ & _ & _ & _ & [Hk HV] & _).
     destruct (getw s k) eqn:Ew;
       try (apply (Hfin k ltac:(reflexivity) HV Hk); rewrite Ew; discriminate).
-    exists 0. unfold enabled, step, step_io. rewrite Eio, Ew. reflexivity.
+    exists 0. unfold enabled, step_real, step_io. rewrite Eio, Ew. reflexivity.
   - (* I_Done *)
     unfold IoInv in Hio. rewrite Eio in Hio. destruct Hio as (_ & _ & _ & _ & HV & _). cbn [io_extra] in HV.
     unfold terminal in Hterm. rewrite Eio in Hterm.
@@ -384,6 +393,12 @@ Proof. vm_compute. repeat constructor; eexists; reflexivity. Qed.
 (* C03 / pipeline_end_state: a complete run *)
 Example ex_terminal : exists s, run0 s_init full = Some s /\ terminal S0 s = true /\ length (output S0 s) = 3.
 Proof. vm_compute. eexists. repeat split. Qed.
+(* C04_bounded_steps_without_spurious: [full] is a schedule of the real threads only *)
+Example ex_full_real_only : forall t, In t full -> t <= 2.
+Proof.
+  assert (H : forallb (fun t => t <=? 2) full = true) by (vm_compute; reflexivity).
+  rewrite forallb_forall in H. intros t Ht. apply Nat.leb_le. apply H. exact Ht.
+Qed.
 (* C04_deadlock_free: a reachable non-terminal state *)
 Example ex_not_terminal : exists s, run0 s_init (firstn 20 full) = Some s /\ terminal S0 s = false.
 Proof. vm_compute. eexists. split; reflexivity. Qed.
@@ -433,4 +448,44 @@ Proof.
   - vm_compute. repeat constructor; eexists; reflexivity.
   - vm_compute. eexists. repeat split.
 Qed.
+
+(* ---- spurious wake-ups: thread ids T+1+j (T = 2: 3 = I/O thread, 4 = worker 0, 5 = worker 1) ---- *)
+Definition inp2 : list N := map (fun i => N.of_nat ((i * 11 + 5) mod 256)) (seq 0 20).
+Definition ls2 : list load := loads_of 1 true inp2.          (* two one-block chunks, the second one FINAL *)
+Definition s_init2 := init S0 2 (tag_init 2) ls2.
+(* worker 0 and worker 1 fall asleep on their EMPTY buffers, are woken spuriously (4, 5), re-test and go back to sleep;
+   the I/O thread loads both buffers, falls asleep on buffer 0 (READY) and is woken spuriously three times (3), each
+   time before worker 0 has handed the buffer back, so that it re-tests and goes back to sleep; the notification of
+   worker 0's set_update wakes it for good *)
+Definition sched_spur : list nat :=
+  [1; 1; 4; 1; 2; 2; 5; 2; 0; 0; 0; 0; 0; 0; 0; 0; 0; 0; 0; 3; 0; 3; 0;
+   2; 2; 3; 0; 2; 2; 1; 1; 2; 1; 1; 0; 1; 0; 0; 0; 0; 1; 0; 0; 1; 0; 0;
+   0; 0; 2; 0; 2; 0].
+Example ex_wf2 : wf_loads ls2 /\ map ld_total ls2 = [1; 1] /\ map ld_final ls2 = [false; true].
+Proof.
+  split; [|split; reflexivity]. split.
+  - vm_compute. repeat constructor.
+  - intros i Hi. change (length ls2) with 2 in *.
+    destruct i as [|[|i]]; try lia; vm_compute; intro H; try discriminate H; reflexivity.
+Qed.
+(* a complete run with five spurious wake-ups ends in the terminal state with the output of the reference *)
+Example ex_spurious_run :
+  spurious_count 2 sched_spur = 5 /\
+  exists s, run0 s_init2 sched_spur = Some s /\ terminal S0 s = true /\ crashed S0 s = None /\
+            output S0 s = ok_bytes (snd (seq_chunks S0 tag_tr 1 true 2 (tag_init 2) 0 ls2)) /\
+            wsts S0 s = fst (seq_chunks S0 tag_tr 1 true 2 (tag_init 2) 0 ls2).
+Proof. split; [reflexivity|]. vm_compute. eexists. repeat split. Qed.
+(* a spuriously woken thread whose predicate is false goes back to sleep: same state as before the wake-up *)
+Example ex_spurious_back_to_sleep :
+  run0 s_init2 [1; 1; 4; 1] = run0 s_init2 [1; 1] /\
+  (exists s, run0 s_init2 [1; 1; 4] = Some s /\ getw S0 s 0 = W_Awake true /\ b_st (getb S0 s 0) = EMPTY) /\
+  enabled_count S0 tag_tr tag_event 1 true s_init2 = 3.
+Proof. vm_compute. split; [reflexivity|]. split; [eexists; repeat split|reflexivity]. Qed.
+(* the step bound without the spurious_count term is false: wake, re-test, sleep, 100 times
+   (202 steps; the bound B of C04_bounded_steps_explicit_proof is 8*(2+2) + (2+9) + 6*2 + 10*2 = 75) *)
+Example ex_unbounded_with_spurious :
+  let sched := [1; 1] ++ concat (repeat [4; 1] 100) in
+  length sched = 202 /\ spurious_count 2 sched = 100 /\ run0 s_init2 sched = run0 s_init2 [1; 1] /\
+  run0 s_init2 [1; 1] <> None.
+Proof. vm_compute. repeat split. discriminate. Qed.
 End NonVacuity.
